@@ -156,13 +156,15 @@ func (g *genCtx) flags(p *Prop) {
 		if canSearch[p.T.K] && h.Chance(1, 2) {
 			p.Flags += "q"
 		}
-		if (p.T.K == "R" && p.T.Sub == "e") && h.Chance(1, 2) {
+		if (p.T.K == "R" && p.T.Sub == "e" || p.T.K == "IE") && h.Chance(1, 2) {
 			p.Flags += "f"
 			switch r := h.Rng.IntN(30); {
-			case r < 10:
+			case r < 8:
 				p.Flags += "d" // default filter naming a declared option
-			case r < 13:
-				p.Flags += "D" // default filter naming no option: the compiler lets it through
+			case r < 14:
+				p.Flags += "P" // the same, spelled with the enum's prefix
+			case r < 16:
+				p.Flags += "D" // default filter naming no option: the compiler has to reject the package (fix b6c593a)
 			}
 		}
 	}
@@ -327,28 +329,58 @@ func genSpec(h *vh.H) *Spec {
 			for _, ev := range pickN(h, []string{"Create", "Archive", "Update", "Touch"}, 1+h.Rng.IntN(3)) {
 				en.Events = append(en.Events, &TopicMsg{Name: ev, Props: g.props(h.Rng.IntN(3), 1, false)})
 			}
-			// the bad-default class is kept to declared schemas (the walks over entity-generated
-			// list methods are not in the declaration-level expectation)
-			for _, ps := range [][]*Prop{en.Data} {
-				stripFlag(ps, 'D')
-			}
-			for _, ev := range en.Events {
-				stripFlag(ev.Props, 'D')
-			}
 			s.Entities = append(s.Entities, en)
 		}
 	}
 	return s
 }
 
-func stripFlag(ps []*Prop, c byte) {
-	for _, p := range ps {
-		p.Flags = strings.ReplaceAll(p.Flags, string(c), "")
-		stripFlag(p.T.Props, c)
-		if p.T.Elem != nil {
-			stripFlag(p.T.Elem.Props, c)
+// hasFlag: does any property of the package (inline schemas included) carry flag c
+func (s *Spec) hasFlag(c byte) bool {
+	var any func(ps []*Prop) bool
+	any = func(ps []*Prop) bool {
+		for _, p := range ps {
+			if p.Has(c) {
+				return true
+			}
+			for t := p.T; t != nil; t = t.Elem {
+				if any(t.Props) {
+					return true
+				}
+			}
+		}
+		return false
+	}
+	for _, sc := range s.Schemas {
+		if any(sc.Props) {
+			return true
 		}
 	}
+	for _, sv := range s.Services {
+		for _, m := range sv.Methods {
+			if any(m.Req) || any(m.Resp) {
+				return true
+			}
+		}
+	}
+	for _, t := range s.Topics {
+		for _, m := range t.Msgs {
+			if any(m.Props) {
+				return true
+			}
+		}
+	}
+	for _, en := range s.Entities {
+		if any(en.Keys) || any(en.Data) {
+			return true
+		}
+		for _, ev := range en.Events {
+			if any(ev.Props) {
+				return true
+			}
+		}
+	}
+	return false
 }
 
 func rotate(xs []string, k int) []string {
@@ -511,7 +543,15 @@ func (impl) Gen(h *vh.H, i int) string {
 		return genKernel(h, i)
 	}
 	for try := 0; try < 8; try++ {
-		op := genSpec(h).Encode()
+		spec := genSpec(h)
+		op := spec.Encode()
+		if spec.hasFlag('D') {
+			// "the compiler must reject" class: a default filter that names no option of the enum.
+			// Not filtered: both sides have to answer compile-err (a compiler that lets it through
+			// again shows up as `fail client` + oracle failure client:err:list-enum-default)
+			h.Count("gen.must-reject.enum-default")
+			return op
+		}
 		res := callWorker(h, "valid "+strings.TrimPrefix(op, "chain "), false)
 		if res.died == "" && res.result == "valid" {
 			return op
